@@ -14,6 +14,9 @@ CONFIG = {
         "level_note": ("Trusted: Dask graph construction and dask.local.get_async (real code), NumPy/SciPy kernels; tasks "
                        "are atomic (no pre-emption inside a task except pulsarbat frames in the pre-emptive sub-mode); "
                        "values compared bit-for-bit (99.8 % identical on the unchanged tree), alarm only above tau = eps max|ref| (4 + 16 (1+log2 N) per FFT-based operation in the pipeline)."),
+        "shrink_runs": 1200,
+        "shrink_seconds": 120,
+        "max_shrink_groups": 4,
         "quick_runs": 24000,
         "thorough_runs": 150000,
         "quick_wall_cap": 300,
@@ -58,6 +61,9 @@ CONFIG = {
         "level_note": ("Trusted: CPython sys.settrace semantics; NumPy/SciPy/Dask/astropy calls are atomic between "
                        "crash points; the snapshot function (sim/snapshot.py). Sampled, not exhaustive, over "
                        "histories; exhaustive over line-level crash points of each tested step up to the cap."),
+        "shrink_runs": 600,
+        "shrink_seconds": 120,
+        "max_shrink_groups": 4,
         "quick_runs": 1800,
         "thorough_runs": 12000,
         "quick_wall_cap": 240,
@@ -137,6 +143,9 @@ CONFIG["C11"] = {
                    "documented axis/sideband rules, cross-checked against the arrays the check wrote); dependency code is "
                    "atomic between yield points; Hilbert-path values compared with an independent O(N^2) long-double "
                    "DFT within 64 eps(float32) log2(N) max|x|."),
+    "shrink_runs": 1500,
+    "shrink_seconds": 150,
+    "max_shrink_groups": 4,
     "quick_runs": 7000,
     "thorough_runs": 60000,
     "quick_wall_cap": 400,
